@@ -7,7 +7,7 @@
 //   opts      nodups / sort / sort_descending results are the de-duplicated / sorted plain result
 //   forms     compiled jsonpath_expression (evaluate, select_paths), one-shot json_query (array and
 //             callback overloads) agree
-//   replace   json_replace (lvalue, rvalue, callback overloads) changes exactly the selected nodes
+//   replace   json_replace (const char* prvalue, json rvalue, std::string rvalue, callback) changes exactly the selected nodes
 //   ref       for core selectors the node list equals an independent reference evaluator (below,
 //             written over the model value MV and the AST; it shares no code with jsoncons)
 //   unchanged the queried document is not modified
@@ -256,7 +256,13 @@ static void make_docs(const std::string& kind, int maxn, int minn) {
     else g.keys = {"a", "b", "", "'", "\"", "\\", "\xc3\xa9", "0"};
     std::sort(g.keys.begin(), g.keys.end());
     g.leaves = {MV::uint64(1), MV::uint64(2), MV::str("x"), MV::null()};
-    for (int n = minn; n <= maxn; ++n) for (auto& t : g.trees(n)) g_docs.push_back(make_doc(t));
+    // docs=K keeps only documents with a key outside {a,b}: the others are exactly the docs=S documents
+    std::function<bool(const MV&)> special = [&](const MV& m) {
+        if (m.k == MV::Arr) { for (auto& e : m.a) if (special(e)) return true; return false; }
+        if (m.k == MV::Obj) { for (auto& kv : m.o) if ((kv.first != "a" && kv.first != "b") || special(kv.second)) return true; return false; }
+        return false;
+    };
+    for (int n = minn; n <= maxn; ++n) for (auto& t : g.trees(n)) if (kind == "S" || special(t)) g_docs.push_back(make_doc(t));
 }
 
 // ---------------------------------------------------------------------------------------------
@@ -630,14 +636,21 @@ static void watchdog(unsigned seconds) { static bool inst = false; if (!inst) { 
 static std::map<std::string, int> g_vcount;
 static int g_cap = 8;
 static bool g_replay = false;
+static bool g_tally = true;   // tally=0: a stage that re-runs pairs another stage already counts (sanitizer build): evaluations only
 
-static void viol(const Expr& e, const Doc& d, const std::string& oracle, const std::string& detail) {
+// at most g_cap violations per oracle id and process are listed (the rest are counted), so that one failing family cannot hide another
+static bool listed(const std::string& oracle) {
     int& c = g_vcount[oracle];
     ++c;
-    if (c > g_cap && !g_replay) { out().count("violations_not_listed:" + oracle); return; }
+    if (c > g_cap && !g_replay) { out().count("violations_not_listed:" + oracle); return false; }
+    return true;
+}
+static void viol_emit(const Expr& e, const Doc& d, const std::string& oracle, const std::string& detail) {
     std::string doc = d.text.size() > 300 ? d.text.substr(0, 300) + "..." : d.text;
     out().viol("P|" + e.hextext + "|" + d.hextext + "|" + oracle, "expr=" + e.text + " doc=" + doc + " :: " + (detail.size() > 900 ? detail.substr(0, 900) + "..." : detail));
 }
+static void viol(const Expr& e, const Doc& d, const std::string& oracle, const std::string& detail) { if (listed(oracle)) viol_emit(e, d, oracle, detail); }
+template <class F> static void viol_lazy(const Expr& e, const Doc& d, const std::string& oracle, F detail) { if (listed(oracle)) viol_emit(e, d, oracle, detail()); }
 
 struct Item {
     std::string path; int node = -1; MV val;
@@ -838,7 +851,7 @@ static void check_pair(const Expr& e, Compiled& C, Doc& d, bool full) {
             ++g_eval; ex.evaluate(root, Collector{d, got}, mkopt(bits));
             const char* on = OPT_NAME[opt_index(bits)];
             if (mixed) out().count("abstain_sort_name_vs_index");
-            else if (!items_eq(d, got, want)) viol(e, d, std::string("opts_") + on, "plain=" + items_text(d, L0) + " with " + on + " got " + items_text(d, got) + " expected " + items_text(d, want));
+            else if (!items_eq(d, got, want)) viol_lazy(e, d, std::string("opts_") + on, [&] { return "plain=" + items_text(d, L0) + " with " + on + " got " + items_text(d, got) + " expected " + items_text(d, want); });
             if (!slim) {
                 ++g_eval; json Vo = ex.evaluate(root, mkopt(bits));
                 ++g_eval; json Po = ex.evaluate(root, mkopt(bits) | result_options::path);
@@ -915,9 +928,10 @@ static void check_pair(const Expr& e, Compiled& C, Doc& d, bool full) {
                 bool only_sel = false; int nright = 0;
                 std::string w = diff_docs(d, copy, sel, only_sel, nright);
                 std::string id = std::string("replace_") + mname;
-                // the family "rvalue new value is moved into the first match, later matches receive the moved-from value"
+                // the family "an rvalue new value is moved into the first match, the other matches receive what was moved out":
+                // >= 2 selected locations, nothing outside the selected locations differs
                 if ((mode == 1 || mode == 3) && only_sel && nsel >= 2) id = std::string("replace_") + mname + "_moved";
-                viol(e, d, id, "selected " + paths_text(std::vector<std::string>(dpaths.begin(), dpaths.end())) + " after json_replace(" + mname + "): " + json_text(got) + " expected " + json_text(want_doc) + " ::" + w);
+                viol_lazy(e, d, id, [&] { return "selected " + paths_text(std::vector<std::string>(dpaths.begin(), dpaths.end())) + " after json_replace(" + mname + "): " + json_text(got) + " expected " + json_text(want_doc) + " ::" + w; });
             }
             if (mode == 2) {
                 std::set<std::string> cs(cbpaths.begin(), cbpaths.end());
@@ -944,10 +958,13 @@ static void check_pair(const Expr& e, Compiled& C, Doc& d, bool full) {
                 }
             }
         } else out().count("ref_not_core");
-        if (has_computed) out().count("pairs_with_computed_results");
-        if (!L0.empty()) { out().count("nontrivial"); if (dpaths.size() != L0.size()) out().count("pairs_with_duplicates"); }
-        else out().count("pairs_empty_selection");
-        out().count("pairs");
+        if (!g_tally) out().count("pairs_rechecked_in_another_build_or_level");
+        else {
+            if (has_computed) out().count("pairs_with_computed_results");
+            if (!L0.empty()) { out().count("nontrivial"); if (dpaths.size() != L0.size()) out().count("pairs_with_duplicates"); }
+            else out().count("pairs_empty_selection");
+            out().count("pairs");
+        }
     } catch (const std::exception& x) {
         viol(e, d, "exception", std::string("exception escaped: ") + x.what());
     }
@@ -976,14 +993,15 @@ static void check_node_paths(Doc& d) {
             ++g_eval; jp::json_query(root, x.path, Collector{d, L});
             if (L.size() != 1 || L[0].node != (int)n || L[0].path != x.path) viol(e, d, "npath_query", "used as a query it selects " + items_text(d, L));
             out().count("node_paths");
-            out().count("nontrivial");
+            if (g_tally) out().count("nontrivial");
         } catch (const std::exception& ex) { viol(e, d, "exception", std::string("exception escaped: ") + ex.what()); }
     }
 }
 
-static std::vector<Expr> build_exprs(const std::string& spec) {
+static std::vector<Expr> build_exprs(const std::string& spec, const std::string& minus = "") {
     static Alphabets A;
-    std::vector<Expr> v; std::set<std::string> seen;
+    std::vector<Expr> v, drop; std::set<std::string> seen;
+    for (auto& n : split(minus, ',')) if (!n.empty()) expr_set(A, n, drop, seen);     // expressions another stage covers
     for (auto& n : split(spec, ',')) if (!n.empty()) expr_set(A, n, v, seen);
     return v;
 }
@@ -1021,11 +1039,13 @@ int main(int argc, char** argv) {
     if (g_fatal) { out().flush(); return 0; }
     out().gauge("documents_" + docs, (long long)g_docs.size());
     if (mode == "G") {
+        g_tally = args.geti("tally", 1) != 0;
         for (size_t i = 0; i < g_docs.size(); ++i) if ((int)(i % args.nslices) == args.slice) check_node_paths(*g_docs[i]);
     } else if (mode == "P") {
-        std::vector<Expr> ex = build_exprs(args.get("exprs", "one"));
+        std::vector<Expr> ex = build_exprs(args.get("exprs", "one"), args.get("minus", ""));
+        g_tally = args.geti("tally", 1) != 0;
         bool full = args.get("level", "full") == "full";
-        out().gauge("expressions_" + args.get("exprs", "one"), (long long)ex.size());
+        out().gauge("expressions_" + args.get("exprs", "one") + (args.get("minus", "").empty() ? "" : "-" + args.get("minus", "")), (long long)ex.size());
         long long ncore = 0, nrej = 0, nexpr = 0;
         for (size_t i = 0; i < ex.size(); ++i) {
             if ((int)(i % args.nslices) != args.slice) continue;
@@ -1041,7 +1061,7 @@ int main(int argc, char** argv) {
             if (g_fatal) break;
             if (i % 997 == 0 && !g_docs.empty()) out().sample("P expr=" + e.text + " doc=" + g_docs[i % g_docs.size()]->text);
         }
-        out().count("expressions", nexpr);
+        if (g_tally) out().count("expressions_x_stages", nexpr);
         out().count("expressions_core", ncore);
         out().count("expressions_rejected_by_compiler", nrej);
     } else out().error("usage: c12 P|G docs=S|K|H n=<max nodes> [from=<min nodes>] exprs=<sets> level=full|lite <slice> <nslices> | replay <sig>");
